@@ -28,6 +28,16 @@ Theorem C18_resume_run_to_end : forall f k s sk e1 fuel s' e2,
   run_loop f (k + fuel) s = Ok (s', e1 ++ e2).
 Proof. exact resume_run_to_end. Qed.
 
+(* ... and the same when the restored context is finished through InteractiveContext.run() / run_until(stop) *)
+Theorem C18_resume_run_interactive : forall react req k s sk e1 fuel s' e2,
+  steps (step_run react req current) k s = Ok (sk, e1) -> running (step_run react req current) k s ->
+  run_interactive react req current fuel sk = Ok (s', e2) ->
+  run_loop (step_run react req current) (k + fuel) s = Ok (s', e1 ++ e2).
+Proof.
+  intros react req k s sk e1 fuel s' e2 Hk Hrun Hi. rewrite run_until_eq_run in Hi.
+  eapply resume_run_to_end; eauto.
+Qed.
+
 (* non-vacuity: interrupt a 2-simulant run with a birth after 2 of its steps *)
 Definition ex_f := step_run react_birth req_23 current.
 Definition ex_mid : sim_state :=
@@ -42,3 +52,4 @@ Proof. vm_compute. repeat split; reflexivity. Qed.
 Print Assumptions C18_resume.
 Print Assumptions C18_resume_codec.
 Print Assumptions C18_resume_run_to_end.
+Print Assumptions C18_resume_run_interactive.
